@@ -137,6 +137,8 @@ func MkObs(m *Msg, digest []byte, signer int, variant string, rng *rand.Rand, ot
 		o.Signature[rng.Intn(64)] ^= 1 << uint(rng.Intn(8))
 	case "wrong-addr":
 		o.Addr = otherAddr.Bytes()
+	case "recid+27": // the Ethereum-style recovery id 27/28 instead of 0/1: not a signature this code base produces or accepts
+		o.Signature[64] += 27
 	case "sig64":
 		o.Signature = o.Signature[:64]
 	case "sig66":
@@ -596,7 +598,7 @@ func Gen(rng *rand.Rand, o GenOpts) *Scenario {
 		if o.Hostile {
 			nh := rng.Intn(6)
 			for h := 0; h < nh; h++ {
-				variant := []string{"forged", "sig-bitflip", "wrong-addr", "nonmember", "other-set-member", "other-digest", "sig64", "sig66", "hash-short", "addr-long"}[rng.Intn(10)]
+				variant := []string{"forged", "sig-bitflip", "wrong-addr", "nonmember", "other-set-member", "other-digest", "sig64", "sig66", "hash-short", "addr-long", "recid+27"}[rng.Intn(11)]
 				k := set.Pool[rng.Intn(n)]
 				d := m.Digest
 				var other ethcommon.Address
